@@ -12,3 +12,4 @@ import Generated.GoSplicer
 import Generated.GoMime
 import Generated.GoJtp
 import Generated.GoAnsih
+import Generated.GoView
